@@ -295,3 +295,76 @@ example :
   decide
 
 end Props.C19
+
+namespace Props.C19
+open Cfi.Version Spec.C19
+
+/-! ### programs that also change the tables between selections -/
+
+theorem step_eq (cs : Classes) (fuel : Nat) (op : Op) :
+    step setVersion cs fuel op = step specSelect cs fuel op := by
+  cases op <;> simp only [step, setVersion_eq_specSelect]
+
+/-- **History theorem for programs**: for every class table and every program of selections,
+assignments of a whole version table, in-place edits of the table a class sees (its own or an
+inherited one) and assignments of the active list, on any classes in any interleaving: the
+model's trace is the trace the statement prescribes — every selection picks the greatest key
+not after the request of the table AS IT IS WHEN THE SELECTION IS MADE. -/
+theorem progTrace_eq (fuel : Nat) (watch : List Nat) (cs : Classes) (ops : List Op) :
+    progTrace setVersion fuel watch cs ops = progTrace specSelect fuel watch cs ops := by
+  induction ops generalizing cs with
+  | nil => rfl
+  | cons op ops ih => simp only [progTrace, step_eq, ih]
+
+theorem main_prog (emptyId : Option Nat) (cs : Classes) (fuel : Nat) (watch : List Nat) (ops : List Op) :
+    holdsProg emptyId cs fuel watch ops (contentTrace emptyId (progTrace setVersion fuel watch cs ops)) = true := by
+  simp [holdsProg, progTrace_eq]
+
+/-- a program of selections only is a history of the first kind -/
+theorem progTrace_selects (sel : Classes → Nat → Nat → Key → Classes) (fuel : Nat) (watch : List Nat)
+    (cs : Classes) (ops : List (Nat × Key)) :
+    progTrace sel fuel watch cs (ops.map fun cv => Op.select cv.1 cv.2) = specTrace sel fuel watch cs ops := by
+  induction ops generalizing cs with
+  | nil => rfl
+  | cons op ops ih =>
+    obtain ⟨c, v⟩ := op
+    simp only [List.map_cons, progTrace, specTrace, step, ih]
+
+/-- changing a table changes no active list: only selections and list assignments do -/
+theorem tableOps_frame (sel : Classes → Nat → Nat → Key → Classes) (cs : Classes) (fuel : Nat) (op : Op)
+    (h : ∀ c v, op ≠ .select c v) (h' : ∀ c l, op ≠ .assignActive c l) (n d : Nat) :
+    (step sel cs fuel op).active n d = cs.active n d := by
+  cases op with
+  | select c v => exact absurd rfl (h c v)
+  | assignActive c l => exact absurd rfl (h' c l)
+  | assignTable c t => rfl
+  | setItem c k lst =>
+    simp only [step, editTable]
+    cases ownerOf cs.ownVersions cs.parent fuel c <;> rfl
+  | delItem c k =>
+    simp only [step, editTable]
+    cases ownerOf cs.ownVersions cs.parent fuel c <;> rfl
+
+/-- a table bound on the class itself is the table its next selection reads -/
+theorem versions_after_assign (sel : Classes → Nat → Nat → Key → Classes) (cs : Classes) (fuel c : Nat) (t : Table) :
+    (step sel cs fuel (.assignTable c t)).versions fuel c = t := by
+  simp only [step, Classes.versions]
+  cases fuel <;> simp [lookup]
+
+/-- non-vacuity: the child inherits `{v1: 10}`; a selection of `v2` activates list 10; the child
+is then given a table of its own with a key `v2`, and the same request activates list 20; an
+in-place edit of that table adds `v15`, which a request `v19` then finds; the parent's active
+list never moves -/
+example :
+    let cs : Classes := {
+      parent := fun c => if c == 1 then some 0 else none
+      ownActive := fun c => if c == 0 then some 7 else none
+      ownVersions := fun c => if c == 0 then some [("v1".toList, 10)] else none }
+    progTrace setVersion 3 [0, 1] cs
+      [.select 1 "v2".toList, .assignTable 1 [("v1".toList, 11), ("v2".toList, 20)], .select 1 "v2".toList,
+       .setItem 1 "v15".toList 15, .select 1 "v19".toList] =
+      [[some 7, some 10], [some 7, some 10], [some 7, some 20], [some 7, some 20], [some 7, some 15]] := by
+  simp only [progTrace_eq]
+  decide +kernel
+
+end Props.C19
